@@ -29,7 +29,9 @@ impl Outcome {
         // prepend by command
         let expression_lines = self.testcase.shell_expression.as_bytes();
         let expression_lines = expression_lines.split_at_newline();
-        let mut generated = format!("$ {}", lossy_string!(&expression_lines[0].assure_newline()));
+        // an empty shell expression (`$ ` and nothing else) has no lines at all
+        let first_line = expression_lines.first().copied().unwrap_or_default();
+        let mut generated = format!("$ {}", lossy_string!(&first_line.assure_newline()));
         expression_lines.iter().skip(1).for_each(|line| {
             generated.push_str(&format!(
                 "> {}",
